@@ -211,6 +211,19 @@ def handVerdict (prop : String) (args res : List String) : Verdict :=
       if !tilingOk Rdest.Gen.PIECE_BLOCK_SIZE len blocks then vProp "T1-blocks-do-not-tile-the-piece" tag
       else if blocks ≠ model then vDiff "left" (toString model) tag
       else vOk tag
+  | ["fullq", fillS, drainS], kill :: fin :: _ =>
+    -- a silent connection and a busy manager (full command channel): the model's task ends at the closing tick
+    -- (`T4_closing_tick_ends_the_task`) and its `KillReq` is what lets the manager forget it (`T4_closed_connection_is_forgotten`)
+    match fillS.toNat?, drainS.toNat? with
+    | some _, some drain =>
+      let interval := Rdest.Gen.KEEP_ALIVE_INTERVAL_SEC
+      let closesAt := (Rdest.Gen.KEEP_ALIVE_LIMIT + 1) * interval
+      if kill = "P" then vProp "task-panicked" "fullq"
+      else if drain + 30 < closesAt then vBad "fullq drains before the connection is due to close"
+      else if kill ≠ "kill=y" then vProp "T4-closed-connection-not-reported-to-the-manager" "fullq"
+      else if fin ≠ "finished=y" then vProp "T4-closing-tick-does-not-end-the-task" "fullq"
+      else vOk "fullq"
+    | _, _ => vBad (joinToks args)
   | ["stats", opsS], [out] =>
     -- the task's statistics and timer handler vs `runStats`; oracle (T4 of C14): first interval reports nothing, every
     -- later one the mean of the last two intervals
